@@ -471,6 +471,26 @@ func Main(args []string) int {
 	if thorough {
 		nprog, nrecs = 5000, 100
 	}
+	gen := newGen(rnd)
+	for p := 0; p < nprog; p++ {
+		steps := []*node{}
+		for k := 0; k < 1+rnd.Intn(4); k++ {
+			steps = append(steps, gen(1))
+		}
+		recs := [][]string{}
+		flags := []bool{}
+		for r := 0; r < nrecs; r++ {
+			recs = append(recs, []string{words[rnd.Intn(len(words))], words[rnd.Intn(len(words))], words[rnd.Intn(len(words))], "", ""})
+			flags = append(flags, rnd.Intn(4) == 0)
+		}
+		runProgram(steps, recs, flags)
+	}
+	o.Close()
+	return 0
+}
+
+// newGen returns the generator of random valid transform steps (nested to depth 3)
+func newGen(rnd *rand.Rand) func(depth int) *node {
 	var gen func(depth int) *node
 	mkMatch := func() []matchItem {
 		ms := []matchItem{}
@@ -544,19 +564,15 @@ func Main(args []string) int {
 			return &node{t: "block", then: sub()}
 		}
 	}
-	for p := 0; p < nprog; p++ {
-		steps := []*node{}
-		for k := 0; k < 1+rnd.Intn(4); k++ {
-			steps = append(steps, gen(1))
-		}
-		recs := [][]string{}
-		flags := []bool{}
-		for r := 0; r < nrecs; r++ {
-			recs = append(recs, []string{words[rnd.Intn(len(words))], words[rnd.Intn(len(words))], words[rnd.Intn(len(words))], "", ""})
-			flags = append(flags, rnd.Intn(4) == 0)
-		}
-		runProgram(steps, recs, flags)
+	return gen
+}
+
+// RandomProgramYAML is a random valid transform list over the fields f1..f5, as YAML list items indented by ind
+func RandomProgramYAML(rnd *rand.Rand, ind string) string {
+	gen := newGen(rnd)
+	var sb strings.Builder
+	for k := 0; k < 1+rnd.Intn(4); k++ {
+		sb.WriteString(gen(1).yaml(ind))
 	}
-	o.Close()
-	return 0
+	return sb.String()
 }
